@@ -74,6 +74,10 @@ CLAIMED = {
    "recover_from_standstill() is triggered after sampled prefixes (including the empty one) of vote-level and certificate-level pool histories; the bundle must prove the finalized slot, contain every later certificate held and every own vote for later slots, validate element by element, and bring a fresh pool to the same finalized slot (and, on consistent histories, the same ready parents for the following window).",
    "Prefixes are sampled, not all enumerated. Votor's forwarding of the bundle is exercised in the cluster world (real standstill loop under hook H1), not here.",
    "DESIGN.md §7 C18"),
+ "C17": ("exploration",
+   "Caller-thread simulation: every shipped committee strategy (IID stake-weighted / uniform / Turbine-work, decaying acceptance, partition, Fait-Accompli 1 with both fallbacks, Fait-Accompli 2) is constructed for sampled validator sets (1-40 validators; equal, skewed, whale-under-threshold, exact-threshold, heavy-tail stakes, stakes exactly on j/k seat boundaries, lamport-scale stakes, zero-stake members) and shared by 1-3 real caller threads, each drawing committees from its own seeded random source; the threads are parked at every scheduling point (hook H7 ahead of each acquisition of the sampler's shared rejection counters, call boundaries) and released one at a time by the seeded scheduler, so one seed is one interleaving. Checked per committee: equals what a private instance returns for the same set and random source (a function of set and random source only, whatever other callers do), exactly k members of the set, no zero-stake member, >= floor(f*k) seats under the Fait-Accompli samplers (exact integer arithmetic), <= ceil(max_samples) seats under decaying acceptance; construction and sampling must not panic.",
+   "The schedule-dependent part (shared counters of the decaying-acceptance sampler under concurrent callers) is what the simulation decides; the remaining clauses are pure functions of (validator set, random source) and are checked as invariants of the generated workload - sampled validator sets up to 40 validators (not ~2000), not enumerated. Interleavings are explored at the granularity of critical sections of the sampler's only lock. WeightedShuffle (crate-private) is reached only through Turbine in C16.",
+   "DESIGN.md §7 C17, §15"),
  "C01": ("exploration",
    "Seeded search over executions of 4-9 real nodes on a simulated transport and clock with loss, duplication, reordering, delay, partitions, crashes, stalls and <20%-stake Byzantine voters/leaders; agreement, single-chain and finalized-vs-skip oracles evaluated on every finalization record and certificate on the wire. Sampling, so evidence not proof - the right level for a safety property quantified over schedules and adversaries.",
    "Trusts: tokio's paused clock and current-thread scheduler as the only sources of time/interleaving (hooks H1/H2 remove the others); Byzantine behaviour is limited to the strategy library in sim/src/adv.rs; N<=9.",
